@@ -67,7 +67,9 @@ def run(tier, seed, replay):
                            props=False, edges=True)
     graphb = udprelay.urgent_filter(vlib.Graph(gb))
     pathsb, leftb = graphb.cover(seed=seed, max_len=40, max_paths=None if big else 150, prefer=lambda e: e[1]["n"] == "UpPack")
-    nb, sb, db = udprelay.replay(v, binary, [graphb.behaviour(p) for p in pathsb], variants[1:], seed, "batched uplink lifecycle replay")
+    behsb = [graphb.behaviour(p) for p in pathsb]
+    udprelay.must_contain(behsb, "a batch of several packets", lambda a: a["n"] == "UpPack" and len(a.get("flush") or []) > 1)
+    nb, sb, db = udprelay.replay(v, binary, behsb, variants[1:], seed, "batched uplink lifecycle replay")
     v.coverage["replay_graphs"].append({"relay": "batched uplink (sendmmsg) with Stop", "distinct": gb.distinct, "edges": len(graphb.edges), "paths": len(pathsb), "uncovered_edges": leftb})
     nm, sm, dm = nm + nb, sm + sb, max(dm, db)
     n1, s1, d1 = n1 + nm, s1 + sm, max(d1, dm)
@@ -83,7 +85,10 @@ def run(tier, seed, replay):
         #  before Stop can cancel that context under it)
         graphf = udprelay.urgent_filter(vlib.Graph(gf), also=lambda a: a["n"] in ("InitOk", "InitFail"))
         pathsf, leftf = graphf.cover(seed=seed, max_len=40, max_paths=None if big else 80, prefer=lambda e: e[1].get("at") == "socket" or e[1].get("out") == "aborted")
-        a_, b_, c_ = udprelay.replay(v, binary, [graphf.behaviour(p) for p in pathsf], fvars, seed, "client-session lifecycle replay")
+        behsf = [graphf.behaviour(p) for p in pathsf]
+        udprelay.must_contain(behsf, "a socket fault (InitFail at socket)", lambda a: a["n"] == "InitFail" and a.get("at") == "socket")
+        udprelay.must_contain(behsf, "an aborted Swap", lambda a: a["n"] == "Swap" and a.get("out") == "aborted")
+        a_, b_, c_ = udprelay.replay(v, binary, behsf, fvars, seed, "client-session lifecycle replay")
         nf_, sf_, df_ = nf_ + a_, sf_ + b_, max(df_, c_)
         v.coverage["replay_graphs"].append({"relay": "SOCKS5 client session, socket faults, UpBatch=" + upb, "distinct": gf.distinct, "edges": len(graphf.edges), "paths": len(pathsf), "uncovered_edges": leftf})
     n1, s1, d1 = n1 + nf_, s1 + sf_, max(d1, df_)
